@@ -334,6 +334,53 @@ def gen_csv_doc(t, rng, ctx, n):
     return rows
 
 
+# ------------------------------------------------------------------ XML: what the archive can carry
+# An XML document is a tree of named elements with text leaves.  The document trees of the other archives are sent
+# through XmlArchive after a restriction to what that can express and to what the model's xml_arch decides:
+#   - member keys must be element names (integer keys are written k<i> by the encoder, on both sides);
+#   - text is sent as it is except bytes that are not XML characters / not UTF-8 (replaced), and numeric text is kept
+#     canonical: "12x", " 12", "+5" are std::from_chars's business (num family), not this model's;
+#   - a scalar at the ROOT is excluded: PugiXmlRootScope opens a text element as array / object scope (finding A01).
+XML_TYPES = [i for i in range(44) if i not in (20, 21, 22, 40, 41)]     # root optional / smart pointers / scalars: no XML root value
+
+
+def xml_name(k):
+    if isinstance(k, int) and not isinstance(k, bool):
+        return k                     # the encoder writes k<i>
+    k = "".join(c if (c.isascii() and (c.isalnum() or c in "_")) else "_" for c in str(k))
+    if not k or not (k[0].isalpha() or k[0] == "_"):
+        k = "n" + k
+    return k
+
+
+def xml_text(v):
+    out = "".join(c if (32 <= ord(c) < 127) else "u" for c in v)
+    st = out.strip()
+    if st != out or (st and (st[0] in "+-" or st[0].isdigit()) and not (st.lstrip("-").isdigit() and not st.startswith("--") and st not in ("-",))):
+        # leading / trailing blanks are fine for strings but not canonical for numbers; keep the shape, drop the ambiguity
+        if st and (st[0] in "+-" or st[0].isdigit()):
+            out = "x" + st
+    if out.lower() in ("true", "false") and out not in ("true", "false"):
+        out = "x" + out
+    return out
+
+
+def xml_sanitize(d, root=True):
+    if root and d is not None and not isinstance(d, list):
+        return None                  # scalar root: finding A01, outside the correspondence
+    if isinstance(d, M):
+        seen, out = set(), M()
+        for k, v in d:
+            k = xml_name(k)
+            out.append((k, xml_sanitize(v, False)))
+        return out
+    if isinstance(d, list):
+        return [xml_sanitize(e, False) for e in d]
+    if isinstance(d, str):
+        return xml_text(d)
+    return d
+
+
 def pick_pol(rng, bad):
     if bad == 0:
         return rng.choice(["TT", "TT", "SS", "ST", "TS"])
@@ -345,7 +392,7 @@ def popload_line(arch, ti, mode, pol, prior, doc):
 
 
 def archs_for(ti):
-    return ["json", "mp"] + (["csv"] if ti in CSV_TYPES else [])
+    return ["json", "mp"] + (["csv"] if ti in CSV_TYPES else []) + (["xml"] if ti in XML_TYPES else [])
 
 
 def gen_popload(rng, tier):
@@ -364,17 +411,22 @@ def gen_popload(rng, tier):
                         ctx = Ctx(arch, pol, bad)
                         prior = gen_value(t, rng, ps)
                         doc = gen_csv_doc(t, rng, ctx, ds if ds is not None else rng.randrange(4)) if arch == "csv" else gen_doc(t, rng, ctx, ds)
+                        if arch == "xml":
+                            doc = xml_sanitize(doc)
                         cases.append(popload_line(arch, ti, "-", pol, prior, doc))
         for ti in MAP_TYPES:
             t = TYPES[ti]
             for mode in "cou":
                 for ps in range(6):
                     for ds in range(6):
-                        for arch in ("json", "mp"):
+                        for arch in ("json", "mp", "xml"):
                             bad = rng.choice([0.0, 0.0, 0.3])
                             pol = pick_pol(rng, bad)
                             ctx = Ctx(arch, pol, bad)
-                            cases.append(popload_line(arch, ti, mode, pol, gen_value(t, rng, ps), gen_doc(t, rng, ctx, ds)))
+                            doc = gen_doc(t, rng, ctx, ds)
+                            if arch == "xml":
+                                doc = xml_sanitize(doc)
+                            cases.append(popload_line(arch, ti, mode, pol, gen_value(t, rng, ps), doc))
     return cases
 
 
@@ -624,7 +676,7 @@ def gen_validate(rng, tier):
     cases = []
     for ci, (kind, fields) in enumerate(CLASSES):
         for _ in range(n_per):
-            arch = rng.choice(["json", "json", "mp", "mp"] + (["csv", "csv"] if ci == 8 else []))
+            arch = rng.choice(["json", "json", "mp", "mp", "xml", "xml"] + (["csv", "csv"] if ci == 8 else []))
             if kind == "obj":
                 doc = gen_obj_doc(fields, rng, arch)
             elif arch == "csv":
@@ -633,6 +685,8 @@ def gen_validate(rng, tier):
                 doc = [gen_obj_doc(fields, rng, arch) for _ in range(rng.randrange(0, 5))]
             if rng.random() < 0.04 and arch != "csv":      # CSV text is always a table
                 doc = rng.choice([None, 5, [], M()])
+            if arch == "xml":
+                doc = xml_sanitize(doc)
             pol = rng.choice(["SS", "SS", "SS", "TT", "ST", "TS"])
             for mx in (0, 1, 2, 3, 100):
                 cases.append(validate_line(arch, ci, mx, pol, doc))
@@ -652,9 +706,9 @@ def gen_validate(rng, tier):
                             members.append((k2, v))
                     else:
                         members.append((k2, good[k2]))
-                for arch in ("json", "mp"):
+                for arch in ("json", "mp", "xml"):
                     for mx in (0, 1, 2):
-                        cases.append(validate_line(arch, ci, mx, "SS", members))
+                        cases.append(validate_line(arch, ci, mx, "SS", xml_sanitize(members) if arch == "xml" else members))
     return cases
 
 
